@@ -1,5 +1,6 @@
 import TucanProofs.Lemmas.Hill
 import TucanProofs.Lemmas.NxEdges
+import TucanProofs.Lemmas.RoundTripPipeline
 /-!
 # C05 — every emitted string obeys the published grammar and canonical layout
 
@@ -39,5 +40,54 @@ theorem C05_grammar_element_order :
     chainLt withoutCarbonOrder = true ∧
     withCarbonOrder = ['C'] :: ['H'] :: withoutCarbonOrder.filter (· != ['H']) :=
   ⟨atn_withoutCarbon_is_sorted.2.2.1, atn_withCarbon_is_hill.2.2⟩
+
+/-- **Every string the pipeline emits is a sentence of the published grammar** (lexically and
+syntactically), for molecules in the domain the readers and the parser produce (`MolAtoms`: element
+symbols of the table, mass / radical absent or strictly positive). -/
+theorem C05_emitted_is_sentence (order : Graph → List Nat) (hperm : ∀ r : Graph, r.WF → (order r).Perm r.labels)
+    (g : Graph) (hw : g.WF) (hs : g.Simple) (hmol : g.MolAtoms)
+    (hsize : (natRepr (g.numberOfNodes + 1)).length ≤ intMaxStrDigits)
+    (s : Str) (h : tucanOf order g = .ok s) :
+    ∃ toks ast, lex s = some toks ∧ Sentence toks ast := by
+  obtain ⟨H, _, hp, _⟩ := pipeline_roundtrip order hperm g hw hs hmol hsize s h
+  unfold graphFromTucan at hp
+  cases hl : lex s with
+  | none => simp [hl, bind, Except.bind] at hp
+  | some toks =>
+    cases hpt : parseTucan toks with
+    | none => simp [hl, hpt, bind, Except.bind, pure, Except.pure] at hp
+    | some ast => exact ⟨toks, ast, rfl, (parseTucan_iff toks ast).mp hpt⟩
+
+/-- **Atom indices run `1 … n` in blocks of increasing atomic number**: the molecule the string is written
+from (the result of `sort_molecule_by_attribute(·, ATOMIC_NUMBER)`) has the labels `0 … n-1`, and the
+atomic number is non-decreasing along the labels. -/
+theorem C05_indices_in_blocks_of_Z (g m : Graph) (hw : g.WF) (hs : g.Simple)
+    (hm : sortMoleculeByAttribute g .atomicNumber = .ok m)
+    (hz : ∀ a ∈ g.labels, ∃ x z, g.attrs? a = some x ∧ x.z = some z) :
+    m.labels.Perm (List.range g.numberOfNodes) ∧
+    ∀ i j, i < j → j < g.numberOfNodes →
+      (RoundTrip.atomAt m i).z.getD 0 ≤ (RoundTrip.atomAt m j).z.getD 0 :=
+  ⟨(RoundTrip.sorted_facts hw hs hm hz).2.2.2.1, (RoundTrip.sorted_facts hw hs hm hz).2.2.2.2⟩
+
+/-- **Attribute blocks appear once per labelled atom, in strictly ascending index order.** -/
+theorem C05_attribute_blocks_ascending (m : Graph) (hw : m.WF) :
+    ((m.nodes.mergeSort fun a b => decide (a.id ≤ b.id)).filterMap fun n =>
+      if (attrPairs n.attrs).isEmpty then none else some n.id).Pairwise (· < ·) := by
+  have hsorted : (m.nodes.mergeSort fun a b => decide (a.id ≤ b.id)).Pairwise (fun a b => a.id ≤ b.id) := by
+    have := List.pairwise_mergeSort (le := fun (a b : Node) => decide (a.id ≤ b.id))
+      (fun a b c hab hbc => by simp only [decide_eq_true_eq] at *; omega)
+      (fun a b => by simp only [Bool.or_eq_true, decide_eq_true_eq]; omega) m.nodes
+    simpa using this
+  have hnd : ((m.nodes.mergeSort fun a b => decide (a.id ≤ b.id)).map (·.id)).Nodup :=
+    ((List.mergeSort_perm m.nodes _).map (·.id)).nodup_iff.mpr (by simpa [Graph.labels] using hw.nodup)
+  have hstrict : (m.nodes.mergeSort fun a b => decide (a.id ≤ b.id)).Pairwise (fun a b => a.id < b.id) := by
+    have h2 := List.pairwise_map.mp hnd
+    exact (hsorted.and h2).imp (fun {a b} ⟨h1, h2⟩ => Nat.lt_of_le_of_ne h1 h2)
+  refine List.Pairwise.filterMap _ ?_ hstrict
+  intro a a' haa b hb b' hb'
+  split at hb <;> simp at hb
+  split at hb' <;> simp at hb'
+  subst hb; subst hb'
+  exact haa
 
 end Tucan
